@@ -168,6 +168,103 @@ extends_cycle_harness!(c06_extends_cycle_relative_spelling, "./b", "./b");
 extends_cycle_harness!(c06_extends_cycle_mixed_spelling, "x/b", "./b");
 // @verif-end
 
+
+// ---------------------------------------------------------------------------
+// C06 / C05: super() restores the block cursor, the frame depth and the current block on EVERY path.
+// The nested evaluation of the parent block (Executor::do_eval, i.e. eval_impl - not reachable for CBMC) is a
+// nondeterministic stub that succeeds or fails; everything around it in perform_super is the real code.
+// ---------------------------------------------------------------------------
+pub(crate) static mut EVAL_MODEL_FAILS: bool = false;
+pub(crate) static mut EVAL_MODEL_CALLS: usize = 0;
+
+pub(crate) fn do_eval_model<'env>(
+    _state: &mut State<'_, 'env>,
+    _out: &mut Output,
+    stack: Stack,
+    _pc: u32,
+) -> Result<Option<Value>, Error>
+where
+    'env: 'env,
+{
+    core::mem::forget(stack);
+    unsafe {
+        EVAL_MODEL_CALLS += 1;
+        if EVAL_MODEL_FAILS {
+            Err(Error::from(ErrorKind::InvalidOperation))
+        } else {
+            Ok(None)
+        }
+    }
+}
+
+struct NullSink;
+impl std::fmt::Write for NullSink {
+    fn write_str(&mut self, _s: &str) -> std::fmt::Result {
+        Ok(())
+    }
+}
+
+macro_rules! super_restores_harness {
+    ($name:ident, $levels:expr) => {
+        #[kani::proof]
+        #[kani::unwind(5)]
+        #[kani::stub(std::hash::RandomState::new, crate::verif_common::random_state_stub)]
+        #[kani::stub(alloc::fmt::format, crate::verif_common::format_stub)]
+        #[kani::stub(crate::error::Error::with_source, crate::error::verif_kani::with_source_model)]
+        #[kani::stub(alloc::sync::Arc::drop_slow, crate::verif_common::arc_drop_slow_leak)]
+        #[kani::stub(alloc::vec::Vec::pop, crate::verif_common::vec_pop_leaking)]
+        #[kani::stub(crate::vm::Executor::do_eval, do_eval_model)]
+        fn $name() {
+            let env: &'static Environment<'static> = Box::leak(Box::new(Environment::empty()));
+            let mut state = State::new_for_env(env);
+            let child: &'static Instructions<'static> = Box::leak(Box::new(Instructions::new("child", "")));
+            let parent: &'static Instructions<'static> = Box::leak(Box::new(Instructions::new("parent", "")));
+            let mut bs = BlockStack::new(child);
+            if $levels >= 2 {
+                bs.append_instructions(parent);
+            }
+            state.blocks.insert("b", bs);
+            state.current_block = Some("b");
+            let fails: bool = kani::any();
+            unsafe {
+                EVAL_MODEL_FAILS = fails;
+                EVAL_MODEL_CALLS = 0;
+            }
+            let depth_before = state.ctx.depth();
+            let mut sink = NullSink;
+            let r = {
+                let mut out = Output::new(&mut sink);
+                let r = Executor::perform_super(&mut state, &mut out, false);
+                core::mem::forget(out);
+                r
+            };
+            let calls = unsafe { EVAL_MODEL_CALLS };
+            if $levels >= 2 {
+                // the parent definition is evaluated exactly once; its failure is the failure of super()
+                assert!(calls == 1);
+                assert!(r.is_err() == fails);
+            } else {
+                // no parent definition: refused without evaluating anything
+                assert!(calls == 0);
+                assert!(r.is_err());
+            }
+            // restored on every path: the block cursor is back on the definition super() was called from, the
+            // frame super() pushed is gone, the current block is unchanged
+            assert!(core::ptr::eq(state.blocks.get("b").unwrap().instructions(), child));
+            assert!(state.ctx.depth() == depth_before);
+            assert!(state.current_block == Some("b"));
+            kani::cover!(fails);
+            kani::cover!(!fails);
+            core::mem::forget((r, state));
+        }
+    };
+}
+
+// @verif-block props=C06,C05 tier=quick cap=900 group=core doc=super()_(Executor::perform_super_with_the_nested_evaluation_replaced_by_a_stub_that_succeeds_or_fails,_symbolic)_on_a_block_with_1_or_2_definitions:_the_parent_definition_is_evaluated_exactly_once_(refused_without_a_parent),_and_on_EVERY_path_-_success,_failure_of_the_parent,_refusal_-_the_block_cursor_returns_to_the_calling_definition,_the_pushed_frame_is_popped_and_the_current_block_is_unchanged
+super_restores_harness!(c06_super_restores_cursor_2_levels, 2);
+super_restores_harness!(c06_super_restores_cursor_1_level, 1);
+// @verif-end
+
 #[cfg(test)]
 mod playback {
     use super::*;
